@@ -17,6 +17,7 @@ import warnings
 from .core import Check, MachineryError, seed
 from .tlc import printed_json, require_actions, run_tlc
 
+LABELLED_PREFIXES = ["a_matrix", "k_matrix", "decay_associated_spectra", "species_associated_spectra", "irf", "pfid_", "damped_oscillation_"]
 LABELLED_VARS = ["matrix", "clp", "fitted_data", "residual", "species_concentration", "species_associated_spectra", "species_spectra",
                  "species_associated_concentrations", "damped_oscillation_cos", "damped_oscillation_sin", "damped_oscillation_associated_spectra",
                  "damped_oscillation_phase", "pfid_cos", "pfid_sin", "pfid_associated_spectra", "pfid_phase", "baseline",
@@ -234,13 +235,23 @@ def compare_builtin(chk: Check, pick):
         chk.violation(key + " objective", f"{desc}: objective changes under permutation of the declaration order: cost {a.cost!r} vs {b.cost!r}", rep)
     for dslabel in a.data:
       da, db = a.data[dslabel], b.data[dslabel]
-      for var in LABELLED_VARS:
+      # every result variable whose name starts with one of the labelled families (several megacomplexes of one type in a dataset give
+      # suffixed names such as decay_associated_spectra_<megacomplex label>)
+      all_vars = sorted({v for v in list(da.data_vars) + list(db.data_vars) if any(str(v).startswith(p) for p in LABELLED_VARS + LABELLED_PREFIXES)})
+      for var in all_vars:
           if (var in da) != (var in db):
               chk.violation(key + f" {var} presence", f"{desc}: variable {var} present in only one of the two results", rep)
               continue
           if var not in da:
               continue
           x, y = da[var], db[var]
+          # decay components carry no user label: their identity is their rate (the component index is the position in the eigen
+          # decomposition, which depends on the declaration order).  They are matched by rate.
+          for dim in list(x.dims):
+              rc = "rate" + str(dim)[len("component"):] if str(dim).startswith("component") else None
+              if rc and rc in x.coords and rc in y.coords and dim in y.dims:
+                  x = x.sortby(rc).assign_coords({dim: np.arange(x.sizes[dim])})
+                  y = y.sortby(rc).assign_coords({dim: np.arange(y.sizes[dim])})
           try:
               y2 = y.reindex_like(x)      # reorders every labelled coordinate by label
           except Exception as ex:  # noqa: BLE001
